@@ -124,6 +124,40 @@ theorem tie_remap {ps : Nat} (hps : 0 < ps) (addr bytes : Nat) :
 
 example : remapVAddrs 4096 0x1000 8191 = [0x1000, 0x2000] := by decide
 
+/-- The repaired loop body of `allocateMultiplePagesWithGivenVAddrs`: the allocator's record of the virtual address
+is read before it is overwritten, the pages are taken from the device first, the page table is updated, and only
+then — when the record exists and belongs to the calling process — the recorded physical page is handed to
+`addSinglePAddr` of the device that owns it (`deviceIDByPAddr`). The model's `releaseReplaced` does exactly that:
+the record of the caller's own process goes to the free list of `devOf`, anything else changes no free list. -/
+theorem tie_remap_release (s : State) (π : Nat) :
+    remapRelease = ["a.vAddrToPageMapping[page.VAddr]", "found&&replaced.PID==pid",
+      "a.devices[a.deviceIDByPAddr(replaced.PAddr)]", "replaced.PAddr"] ∧
+    remapLoopOrder = ["device.allocateMultiplePages", "a.pageTable.Update", "owner.MemState.addSinglePAddr"] ∧
+    (∀ old d, old.pid = π → devOf s.devs old.paddr = some d →
+      releaseReplaced s π (some old) =
+        .ok { s with pool := { s.pool with frees := s.pool.frees.modify d (· ++ [old.paddr]) } }) ∧
+    (∀ old, old.pid = π → devOf s.devs old.paddr = none → releaseReplaced s π (some old) = .error .noDevice) ∧
+    (∀ old, old.pid ≠ π → releaseReplaced s π (some old) = .ok { s with leaked := s.leaked + 1 }) ∧
+    releaseReplaced s π none = .ok { s with leaked := s.leaked + 1 } := by
+  refine ⟨by decide, by decide, ?_, ?_, ?_, rfl⟩
+  · intro old d hp hd
+    simp [releaseReplaced, hp, hd]
+  · intro old hp hd
+    simp [releaseReplaced, hp, hd]
+  · intro old hp
+    simp [releaseReplaced, hp]
+
+/-- one iteration of the model's loop reads the record with `lookup s.mirror v` BEFORE pushing the new record -/
+theorem tie_remap_iteration (π : Nat) (u : Bool) (v p dev : Nat) (vs ps : List Nat) (s : State) (pt' : List Page)
+    (hd : devOf s.devs p = some dev)
+    (hu : ptUpdate s.pt (mkPg π v p dev u) = .ok pt') :
+    remapLoop π u (v :: vs) (p :: ps) s =
+      (match releaseReplaced { s with pt := pt', mirror := (v, mkPg π v p dev u) :: s.mirror } π (lookup s.mirror v) with
+       | .error e => .error e
+       | .ok s1 => remapLoop π u vs ps s1) := by
+  simp only [remapLoop, hd, hu]
+  rfl
+
 /-- `RegisterDevice` + `deviceMemoryStateImpl.setInitialAddress`: the device starts at `totalStorageByteSize`, the
 free list queued is exactly the trace of `for addr := initialAddress; addr < initialAddress+storageSize;
 addr += pageSize { addSinglePAddr(addr) }`, and the total advances by the storage size. -/
@@ -294,6 +328,18 @@ theorem tie_alloc_level (len ord i : Nat) :
   refine ⟨?_, by simp [buddyTakeMergeGuard], by decide, rfl⟩
   simp only [buddyAllocLevel, buddyFreeListLen, buddyAllocOrderStart]
   omega
+
+/-- `allocateMultiplePages`: the zero-page guard of the repaired code (`if numPages <= 0 { return nil }`) is the
+guard of the model — a request for no page changes nothing, every other request runs the body -/
+theorem tie_alloc_zero_guard (s : State) (n : Nat) :
+    (buddyZeroGuard n = true ↔ n = 0) ∧
+    allocMulti s n = (if buddyZeroGuard n then .ok ([], s) else allocMultiPos s n) := by
+  refine ⟨by simp [buddyZeroGuard], ?_⟩
+  by_cases h : n = 0
+  · subst h; rfl
+  · have : buddyZeroGuard n = false := by simp [buddyZeroGuard]; omega
+    rw [this]
+    simp [allocMulti, h]
 
 /-- `sizeOfLevel`, `indexInLevelOf`, `indexOfBlock`, `buddyOf` (addresses at or above the device base; the buddy
 below exists when the block is not the first of its level) -/
